@@ -113,7 +113,8 @@ func run(r *vlib.Run, g *rig, ncases int) {
 			nops = 1 + rng.Intn(4)
 		}
 
-		model := map[string]rec{} // by fact hash
+		model := map[string]rec{}   // by fact hash
+		archive := map[string]rec{} // everything ever stored in this case, incl. what a remove call took out of the model
 		var order []string
 		add := func(node int, s, e int64) {
 			fact := isaac.NewSuffrageExpelFact(nodes[node], base.Height(s), base.Height(e), util.UUID().String())
@@ -135,6 +136,7 @@ func run(r *vlib.Run, g *rig, ncases int) {
 				order = append(order, x.fact)
 			}
 			model[x.fact] = x
+			archive[x.fact] = x
 			r.Count("ops_stored", 1)
 		}
 		for i := 0; i < nops; i++ {
@@ -196,6 +198,10 @@ func run(r *vlib.Run, g *rig, ncases int) {
 						err := pool.TraverseSuffrageExpelOperations(ctx, base.Height(h), func(op base.SuffrageExpelOperation) (bool, error) {
 							f := op.ExpelFact().Hash().String()
 							x, known := model[f]
+							if _, removed := archive[f]; !known && removed {
+								seen[f] = true // judged by the remove check
+								return true, nil
+							}
 							if !known {
 								unknown = append(unknown, fmt.Sprintf("n?[%d,%d]", op.ExpelFact().ExpelStart(), op.ExpelFact().ExpelEnd()))
 								return true, nil
@@ -274,7 +280,16 @@ func run(r *vlib.Run, g *rig, ncases int) {
 					for _, x := range wantn {
 						linfo.Want = append(linfo.Want, x.String())
 					}
+					removedHit := false
+					if found {
+						f := got.ExpelFact().Hash().String()
+						_, inModel := model[f]
+						_, inArchive := archive[f]
+						removedHit = !inModel && inArchive
+					}
 					switch {
+					case removedHit:
+						seen[got.ExpelFact().Hash().String()] = true // a removed operation: judged by the remove check
 					case found && len(wantn) == 0:
 						f := got.ExpelFact()
 						linfo.Got = []string{fmt.Sprintf("[%d,%d]", f.ExpelStart(), f.ExpelEnd())}
